@@ -1231,6 +1231,30 @@ def clip(a, a_min=None, a_max=None):
     return _box(c1(a, a_min, a_max))
 
 
+def maximum(a, b):
+    return _ufunc2(a, b, lambda x, y: _maxf(_unbox(x), y)) if (isinstance(a, ndarray) or isinstance(b, ndarray)) else _box(_maxf(_unbox(a), b))
+
+
+def minimum(a, b):
+    return _ufunc2(a, b, lambda x, y: _minf(_unbox(x), y)) if (isinstance(a, ndarray) or isinstance(b, ndarray)) else _box(_minf(_unbox(a), b))
+
+
+class finfo:
+    def __init__(self, t=float):
+        import sys as _s
+        self.eps = _s.float_info.epsilon
+        self.max = _s.float_info.max
+        self.min = -_s.float_info.max
+        self.tiny = _s.float_info.min
+
+
+def abs_(a):
+    return _ufunc1(a, lambda x: abs(x)) if isinstance(a, ndarray) else _box(abs(_unbox(a)))
+
+
+absolute = abs_
+
+
 def ceil(x):
     x = _unbox(x)
     if isinstance(x, ndarray):
